@@ -42,7 +42,9 @@ CHECK = {'rule': 'four rapid-generated case kinds plus one exhaustive part. maps
                               'load:base-subdir',
                               'load:files=1',
                               'load:files=9-40',
-                              'load:keys>512'],
+                              'load:keys>512',
+                              'config:read',
+                              'config:write-read'],
                       'thorough': ['kind:maps',
                                    'kind:read',
                                    'kind:write',
@@ -66,19 +68,21 @@ CHECK = {'rule': 'four rapid-generated case kinds plus one exhaustive part. maps
                      {'test': '^TestPropMaps$', 'checks': 8000, 'shards': 1, 'timeout': 120},
                      {'test': '^TestPropRead$', 'checks': 30000, 'shards': 1, 'timeout': 180},
                      {'test': '^TestPropWrite$', 'checks': 30000, 'shards': 1, 'timeout': 180},
-                     {'test': '^TestPropLoad$', 'checks': 2500, 'shards': 4, 'timeout': 240}],
+                     {'test': '^TestPropLoad$', 'checks': 2500, 'shards': 4, 'timeout': 240},
+                     {'test': '^TestPropConfig$', 'checks': 20000, 'shards': 1, 'timeout': 180}],
            'thorough': [{'test': '^TestEnum$', 'shards': 1, 'timeout': 600},
                         {'test': '^TestPropMaps$', 'checks': 200000, 'shards': 1, 'timeout': 900},
                         {'test': '^TestPropRead$', 'checks': 300000, 'shards': 5, 'timeout': 900},
                         {'test': '^TestPropWrite$', 'checks': 300000, 'shards': 4, 'timeout': 900},
                         {'test': '^TestPropLoad$', 'checks': 25000, 'shards': 5, 'timeout': 900},
+                        {'test': '^TestPropConfig$', 'checks': 300000, 'shards': 2, 'timeout': 900},
                         {'test': '^$', 'fuzz': '^FuzzReadDoc$', 'fuzztime': '120s', 'gomaxprocs': 4, 'timeout': 400},
                         {'test': '^$', 'fuzz': '^FuzzWriteMap$', 'fuzztime': '90s', 'gomaxprocs': 4, 'timeout': 400},
                         {'test': '^$', 'fuzz': '^FuzzMaps$', 'fuzztime': '90s', 'gomaxprocs': 4, 'timeout': 400}]}}
 
 TEXT = {'technique': 'property-based testing (rapid): round-trip and differential oracles against encoding/json over generated nested maps, JSON documents '
               'rendered with per-character escape choice, flat maps over all valid Unicode, and generated translation directories loaded under '
-              'varied GOMAXPROCS / workers.MaxJob / CPU confinement; small exhaustive enumeration of escape-relevant strings; thorough adds native '
+              'varied GOMAXPROCS / workers.MaxJob / CPU confinement; small exhaustive enumeration of escape-relevant strings; a config kind (filesystem/json ReadJSON/WriteJSON + flatten, the path goatapp takes) compared with encoding/json; thorough adds native '
               'coverage-guided go fuzzing of raw JSON documents (domain filter + same differential oracle), of flat maps and of the nested-map generator '
               '(rapid.MakeFuzz)',
  'level_text': 'Exploration: ~93 k cases per quick run (~76 k distinct non-trivial) + 2 955 strings exhaustively (length <= 3 over 14 character '
